@@ -80,11 +80,21 @@ UpsertBad ==
             <<Ev.err, "C02.InvalidUpsertFails">>,
             <<NotMutated(Ev.members), "C02.PoolNotMutated">>,
             <<MemKeys(Ev.members) = DOMAIN ref \/ MemKeys(Ev.members) = DOMAIN ref \cup {Ev.k}, "C02.MembersMatchAdminCalls">> >>)
-     /\ cnt' = ZeroCnt(r2)
-  /\ picks' = <<>>
+     \* a rejected call that changed nothing is not a pool change: the windows of C01 run on across it
+     /\ cnt' = IF r2 = ref THEN cnt ELSE ZeroCnt(r2)
+     /\ picks' = IF r2 = ref THEN picks ELSE <<>>
   /\ pool' = [i \in 1..Len(Ev.members) |-> [k |-> Ev.members[i].k, v |-> Ev.members[i].v, w |-> Ev.members[i].w]]
   /\ UNCHANGED <<idx, cw>>          \* the failing path does not reset the iterator
   /\ UNCHANGED <<scn, subject, drift>> /\ nev' = nev + 1
+
+(* an add that the rebalancer refused (it could not create a meter for the server): nothing may have changed *)
+UpsertFail ==
+  /\ IsEvent("UpsertFail")
+  /\ bad' = ReportAll(bad, scn, l, <<
+         <<Ev.k \notin DOMAIN ref, "C02.UpdateOfKnownServerSucceeds">>,
+         <<NotMutated(Ev.members), "C02.PoolNotMutated">>,
+         <<MembersOK(Ev.members, ref), "C02.RefusedAddLeavesPoolUnchanged">> >>)
+  /\ UNCHANGED <<scn, subject, pool, idx, cw, ref, picks, cnt, drift>> /\ nev' = nev + 1
 
 Remove ==
   /\ IsEvent("Remove")
@@ -207,6 +217,6 @@ End ==
   /\ JsonSerialize("result.json", [bad |-> bad, drift |-> drift, events |-> nev, lines |-> l])
   /\ UNCHANGED <<scn, subject, pool, idx, cw, ref, picks, cnt, bad, drift, nev>>
 
-Next == Reset \/ Upsert \/ UpsertBad \/ Remove \/ Pick \/ Serve \/ CUpsert \/ CRemove \/ Members \/ End
+Next == Reset \/ Upsert \/ UpsertFail \/ UpsertBad \/ Remove \/ Pick \/ Serve \/ CUpsert \/ CRemove \/ Members \/ End
 Spec == Init /\ [][Next]_vars
 =============================================================================
